@@ -2,6 +2,7 @@ use crate::engine::{run_check, run_replay, Tier};
 use std::path::Path;
 
 pub mod c07;
+pub mod c11;
 pub mod c12;
 pub mod c13;
 pub mod c14;
@@ -13,6 +14,7 @@ pub fn worker_main() {
     crate::bg::install_quiet_panic_hook();
     crate::worker::serve(|req, io| match req["op"].as_str() {
         Some("gen") => c12::worker_gen(req, io),
+        Some("c11") => c11::worker_c11(req, io),
         Some("c13") => c13::worker_c13(req, io),
         Some("c15") => c15::worker_c15(req, io),
         Some("c17") => c17::worker_c17(req, io),
@@ -25,6 +27,7 @@ macro_rules! table {
     ($id:expr, $f:ident, $arg:expr) => {
         match $id {
             "C07" => $f(&c07::C07, $arg),
+            "C11" => $f(&c11::C11, $arg),
             "C12" => $f(&c12::C12, $arg),
             "C13" => $f(&c13::C13, $arg),
             "C14" => $f(&c14::C14, $arg),
